@@ -517,7 +517,7 @@ var specHist = pbt.Register(&pbt.Spec[Case]{
 		}
 		return Case{Dup: dup, Weak: weak, Ops: pbt.OpsOf(t, op, classes, "ops")}
 	},
-	Run: Run, Quick: 5000, Thorough: 50000,
+	Run: Run, Quick: 5000, Thorough: 50000, Replicas: 4, ReplicaEvery: 8,
 })
 
 func TestC02Struct(t *testing.T) { pbt.Check(t, specStruct) }
